@@ -48,11 +48,132 @@ class Bottom(Exception):
     pass
 
 
+def mode_locals(fn, cfg):
+    """{local: {block id: constant}} for "mode" locals: only ever assigned constants (`where = PLACE_FRONT;`), at least twice,
+    never modified otherwise nor address-taken, and no assignment can be followed by another one (they sit on alternative
+    branches), so that on every path the local has one value from its assignment on."""
+    asg = {}
+    bad = set()
+    for x in walk(fn.body):
+        k = x.get("k")
+        if k == "assign":
+            l = X.strip(x["ch"][0])
+            if l is not None and l.get("k") == "ref" and l.get("rk") == "local":
+                cv = X.const_val(x["ch"][1]) if x.get("op") == "=" else None
+                if cv is None:
+                    bad.add(l["d"])
+                else:
+                    asg.setdefault(l["d"], []).append((x, cv))
+        elif k == "un" and x.get("op") in ("++", "--", "&"):
+            l = X.strip(x["ch"][0])
+            if l is not None and l.get("k") == "ref":
+                bad.add(l.get("d"))
+        elif k == "decl":
+            for dcl in x.get("decls", ()):
+                if dcl.get("init") is not None:
+                    bad.add(dcl["d"])
+    out = {}
+    for d, lst in asg.items():
+        vd = fn.vardecls.get(d) or {}
+        if d in bad or len(lst) < 2 or vd.get("tp") or not vd.get("tw"):
+            continue
+        blocks = {}
+        ok = True
+        for x, cv in lst:
+            pos = cfg.pos.get(x["i"])
+            if pos is None or pos[0] in blocks:
+                ok = False
+                break
+            blocks[pos[0]] = cv
+        if not ok:
+            continue
+        # no assignment block reachable from another (or from itself)
+        for b0 in blocks:
+            seen = set()
+            st = [s_ for s_ in cfg.blocks[b0].succ if s_ is not None]
+            while st:
+                y = st.pop()
+                if y in seen:
+                    continue
+                seen.add(y)
+                st.extend(s_ for s_ in cfg.blocks[y].succ if s_ is not None)
+            if seen & set(blocks):
+                ok = False
+                break
+        if ok:
+            out[d] = blocks
+    return out
+
+
+class WorldCfg(object):
+    """Product of a CFG with the value of one mode local (see mode_locals): block (b, w) is block b reached with the local
+    holding w (None before its assignment).  Edges of a switch / test on the local that contradict w are dropped, so the
+    dataflow keeps the facts established where the mode was chosen apart (trace partitioning on the mode)."""
+
+    def __init__(self, base, fn, d, blocks):
+        self.base = base
+        self.fn = fn
+        self.d = d
+        self.assign_blocks = blocks
+        self.entry = (base.entry, None)
+        self.blocks = {}
+        self._edges = {}
+        st = [self.entry]
+        while st:
+            k = st.pop()
+            if k in self.blocks:
+                continue
+            b, w = k
+            self.blocks[k] = base.blocks[b]
+            w2 = self.assign_blocks.get(b, w)
+            es = []
+            for s_, cond, truth in base.edges(b):
+                c = X.strip(cond) if cond is not None else None
+                if w2 is not None and c is not None and c.get("k") == "ref" and c.get("d") == d and isinstance(truth, tuple):
+                    if truth[0] == "case" and truth[1] is not None and truth[1] != w2:
+                        continue
+                    if truth[0] == "default" and len(truth) > 1 and w2 in truth[1]:
+                        continue
+                es.append(((s_, w2), cond, truth))
+                st.append((s_, w2))
+            self._edges[k] = es
+
+    def __getattr__(self, name):
+        return getattr(self.base, name)
+
+    def edges(self, k):
+        return self._edges[k]
+
+    def rpo(self):
+        seen = {self.entry}
+        order = []
+        stack = [(self.entry, iter([e[0] for e in self._edges[self.entry]]))]
+        while stack:
+            node, it = stack[-1]
+            adv = False
+            for s_ in it:
+                if s_ not in seen:
+                    seen.add(s_)
+                    stack.append((s_, iter([e[0] for e in self._edges[s_]])))
+                    adv = True
+                    break
+            if not adv:
+                order.append(node)
+                stack.pop()
+        order.reverse()
+        return order
+
+
 class GhostPos(object):
     def __init__(self, fn, prog=None, mutators=None, pure=None, self_index=0):
         self.fn = fn
         self.prog = prog
         self.cfg = nullness.prepared_cfg(fn, NORETURN)
+        if self.cfg is not None:
+            modes = mode_locals(fn, self.cfg)
+            if modes:
+                d = sorted(modes)[0]
+                self.cfg = WorldCfg(self.cfg, fn, d, modes[d])
         self.selfd = fn.params[self_index]["d"] if (fn.params and self_index is not None) else None
         self.intvars = set()
         self.ptrvars = set()
@@ -121,6 +242,7 @@ class GhostPos(object):
         self.ins = None
         self._tmp = 0
         self._bcache = {}
+        self.flagdefs = {d: c for d, c in getattr(fn, "flagdefs", {}).items() if d in self.intvars}
 
     # ------------------------------------------------------------------ expressions
     def is_self(self, e):
@@ -424,6 +546,13 @@ class GhostPos(object):
         k = c.get("k")
         if k == "un" and c.get("op") == "!":
             return self.refine(cons, c["ch"][0], not truth)
+        if k == "ref" and c.get("d") in self.flagdefs:
+            v = Lin.sym("v%d" % c["d"])
+            r = self._add(cons, [v - 1] if truth else [v, -v])
+            return None if r is None else self.refine(r, self.flagdefs[c["d"]], truth)
+        if k == "bin" and c.get("op") in ("==", "!=") and X.const_val(c["ch"][1]) == 0 and \
+                (X.strip(c["ch"][0]) or {}).get("k") == "ref" and X.strip(c["ch"][0]).get("d") in self.flagdefs:
+            return self.refine(cons, X.strip(c["ch"][0]), truth == (c["op"] == "!="))
         if k == "cond":
             tv, fv = X.const_val(c["ch"][1]), X.const_val(c["ch"][2])
             if tv is not None and fv is not None and bool(tv) != bool(fv):
@@ -521,6 +650,13 @@ class GhostPos(object):
         for i, x in enumerate(syms):
             for y in syms[i + 1:]:
                 templates.append(Lin.sym(x) - Lin.sym(y))
+        if len(syms) <= 6:
+            # a counter running down while a position runs up: x + y - z is what stays constant (remaining + position == len)
+            for i, x in enumerate(syms):
+                for y in syms[i + 1:]:
+                    for z in syms:
+                        if z != x and z != y:
+                            templates.append(Lin.sym(x) + Lin.sym(y) - Lin.sym(z))
         for e in templates:
             loa, hia = self.bounds(a, e)
             lob, hib = self.bounds(b, e)
@@ -594,16 +730,66 @@ class GhostPos(object):
         self.edge_out = edge_out
         return ins
 
+    def refine_dnf(self, cons, cond, truth):
+        """the states (a disjunction) in which cond has this truth value: `!(a && b)` and `a || b` split into their cases"""
+        c = X.strip(cond)
+        if c is None:
+            return [cons]
+        k = c.get("k")
+        if k == "un" and c.get("op") == "!":
+            return self.refine_dnf(cons, c["ch"][0], not truth)
+        if k == "cond":
+            tv, fv = X.const_val(c["ch"][1]), X.const_val(c["ch"][2])
+            if tv is not None and fv is not None and bool(tv) != bool(fv):
+                return self.refine_dnf(cons, c["ch"][0], truth if tv else not truth)
+        if k == "bin" and c.get("op") in ("&&", "||"):
+            if (c["op"] == "&&") == truth:
+                out = []
+                for s1 in self.refine_dnf(cons, c["ch"][0], truth):
+                    out.extend(self.refine_dnf(s1, c["ch"][1], truth))
+                return out
+            first = self.refine_dnf(cons, c["ch"][0], truth)
+            rest = []
+            for s1 in self.refine_dnf(cons, c["ch"][0], not truth):
+                rest.extend(self.refine_dnf(s1, c["ch"][1], truth))
+            return first + rest
+        r = self.refine(cons, c, truth)
+        return [] if r is None else [r]
+
+    def expand_flags(self, cons):
+        """case split of a state on what its decided flag locals stand for (see find_flagdefs)"""
+        sts = [cons]
+        for d in sorted(self.flagdefs):
+            v = Lin.sym("v%d" % d)
+            nxt = []
+            for st in sts:
+                if not any(c_.coef("v%d" % d) for c_ in st):
+                    nxt.append(st)
+                elif entails(st, v - 1):
+                    nxt.extend(self.refine_dnf(st, self.flagdefs[d], True))
+                elif entails(st, -v) and entails(st, v):
+                    nxt.extend(self.refine_dnf(st, self.flagdefs[d], False))
+                else:
+                    nxt.append(st)
+            sts = nxt
+        return sts
+
     def states_before(self, node_id):
+        res = []
+        for st in self._states_before(node_id):
+            res.extend(self.expand_flags(st) if self.flagdefs else [st])
+        return res
+
+    def _states_before(self, node_id):
         """one state per incoming edge of the node's block, each advanced to just before the node (for obligations whose
         justification is a disjunction of guards)"""
         cfg = self.cfg
+        res = []
         for b, blk in cfg.blocks.items():
             if node_id in blk.el and b in self.ins:
                 srcs = [o for k, o in self.edge_out.items() if k[2] == b]
                 if b == cfg.entry or not srcs:
                     srcs = [self.ins[b]]
-                res = []
                 for st in srcs:
                     for e in blk.el:
                         if e == node_id:
@@ -612,8 +798,9 @@ class GhostPos(object):
                         if n is not None:
                             st = self.transfer(st, n, blk)
                     res.append(st)
-                return res
-        return []
+                if not isinstance(cfg, WorldCfg):
+                    break
+        return res
 
     def visit(self, fn_visit):
         """fn_visit(state_before, node, block) for every reachable CFG element, in order"""
